@@ -66,6 +66,12 @@ CLAIMED = {
             "harness is exhaustive in the values; macro forms (closure / function path) and the rebind program family (arity 1..6 x "
             "{place, let, typed let, _} x {rebind_if_ok with/without code, try_rebind}) are enumerated (seeded sample above arity 2/3). A "
             "generated program that rustc rejects is reported as a violation with the program as replay.", "DESIGN.md#c19"),
+    "C20": (BMC + "a positional concatenation reference on the length pass and the <N> fill pass of the concat/join functions; std CStr for the constructors and conversions",
+            "The macros evaluate in const items, so the solver decides their two phases (konst_kernel::string::{concat_sum_lengths,"
+            "concat_strs,join_sum_lengths,join_strs}, slice::{concat_sum_lengths,concat_slices}, __ElemDispatch) on symbolic pieces, chars "
+            "and separators for selected total lengths N; the 5-line const glue is only smoke-tested on constants (stated). CStr: every "
+            "byte slice up to the bound: constructors succeed exactly when std's do with an equal CStr; to_bytes/to_bytes_with_nul/to_str "
+            "equal std.", "DESIGN.md#c20"),
     "C04": (BMC + "a naive first/last-occurrence reference, all byte values, symbolic haystack and pattern",
             "For every haystack up to the stated byte length and every pattern (str, char, [u8], [u8;N]) up to the stated length, over "
             "the full byte alphabet, the SAT solver shows find/rfind/contains/find_skip/find_keep/rfind_skip/rfind_keep/split_once/"
